@@ -315,7 +315,9 @@ register("C10", lean=["Khttp.Props.C10"], run=run_c10,
 CL_VARIANTS = [[], [b"5"], [b" 5 "], [b"05"], [b"+5"], [b"abc"], [b"5, 5"], [b"5", b"5"], [b"5", b"6"], [b"18446744073709551616"], [b""], [b"5 5"], [b"-5"], [b"0x5"],
                # zero, and multi-line orders in which only the LAST line (or the last two) look fine
                [b"0"], [b"0", b"0"], [b"abc", b"5"], [b"+5", b"5"], [b"5, 5", b"5"], [b"18446744073709551616", b"5"], [b"5", b"abc"], [b"5", b"6", b"6"], [b"6", b"5", b"5"],
-               [b"5", b"abc", b"5"], [b"5", b"5", b"6"], [b"0", b"5"], [b"5", b"0"]]
+               [b"5", b"abc", b"5"], [b"5", b"5", b"6"], [b"0", b"5"], [b"5", b"0"],
+               # numerals wider than a machine word: 1*DIGIT has no length limit; bytes next to the digit range inside an 8-byte block
+               [b"0" * 20 + b"5"], [b"0" * 47 + b"5"], [b"00000005"], [b"0000000:"], [b"000000<4"], [b"0000000000000005", b"5"], [b"00000=05"]]
 TE_VARIANTS = [[], [b"chunked"], [b"CHUNKED"], [b" chunked\t"], [b"gzip, chunked"], [b"gzip ,\tChunked "], [b"chunked, gzip"], [b"gzip"],
                [b"gzip", b"chunked"], [b"chunked", b"gzip"], [b"chunked,"], [b""], [b"xchunked"], [b"chunked", b"chunked"]]
 OWS = b" \t"
@@ -420,6 +422,22 @@ def hdr_framing_lines(seed, tier):
     for d in range(1, depth + 1):
         for combo in itertools.product(alpha, repeat=d):
             out.append((list(combo), H.line(list(combo), [])))
+    # the numeral grid (gen/common.py): every value alone, after a plain equal / different length, and under chunked
+    from gen.common import cl_numeral_grid
+    r = rng_for(seed, "c05-grid")
+    for v in cl_numeral_grid():
+        name = r.choice([b"Content-Length", b"content-length"])
+        val = v if r.random() < 0.5 else r.choice([b" ", b"\t", b"  "]) + v + r.choice([b"", b" ", b"\t"])
+        combos = [[("add", name, val)]]
+        x = r.random()
+        if x < 0.15:
+            combos.append([("add", b"Content-Length", b"42"), ("add", name, val)])
+        elif x < 0.3:
+            combos.append([("add", name, val), ("add", b"content-length", b"5")])
+        elif x < 0.4:
+            combos.append([("add", b"Transfer-Encoding", b"chunked"), ("add", name, val)])
+        for combo in combos:
+            out.append((combo, H.line(combo, [])))
     return out
 
 
